@@ -274,3 +274,21 @@ def client_read_coverage(prog, cg, mm):
             if is_method_call(c, ("recv", "recv_into", "recvfrom")):
                 res.append((f, c, cover(f, c)))
     return res
+
+
+def module_constructions(prog: Program):
+    """[(function, call, header_cls argument is self.header_cls)] for every Module(...) the manager creates."""
+    mmod = prog.module(MGR)
+    mcls = prog.cls(MGR, "Module")
+    fields = [st.target.id for st in mcls.node.body if isinstance(st, ast.AnnAssign) and isinstance(st.target, ast.Name)]
+    out = []
+    for f in mmod.functions.values():
+        for c in calls_in(f.node):
+            if isinstance(c.func, ast.Name) and c.func.id == "Module":
+                bound = {fields[i]: a for i, a in enumerate(c.args) if i < len(fields)}
+                bound.update({k.arg: k.value for k in c.keywords if k.arg})
+                hc = bound.get("header_cls")
+                out.append((f, c, hc is not None and norm(hc) == "self.header_cls"))
+    if len(out) < 2:
+        raise AnalysisError(f"anchor vanished: expected >= 2 Module(...) constructions in manager.py, found {len(out)}")
+    return out
